@@ -14,8 +14,9 @@ Record step_case := mkSC {
   s_payload : list N }.   (* IDs of the blocks that have a payload (from their headers) *)
 
 Definition check_step (c : step_case) : N :=
-  let ks := map fst (s_before c) ++ map fst (s_after c) in
   let acts := actions_of (s_op c) in
+  (* every key of either dump AND every key the model batch writes (a write the implementation omitted is in neither dump) *)
+  let ks := map fst (s_before c) ++ map fst (s_after c) ++ map bop_key (concat (writes acts)) in
   let pred := durable_after (lget (s_before c)) acts in
   let agree_model := agree_on ks pred (lget (s_after c)) && (N.of_nat (length (writes acts)) =? s_syncs c) in
   let agree_spec := (s_syncs c <=? 1) && consistent2_b (s_payload c) (s_after c)
